@@ -137,6 +137,24 @@ pub fn generate(g: &mut Gen) {
     let heads: Vec<u8> = vec![0x00, 0x17, 0x18, 0x19, 0x1a, 0x1b, 0x1c, 0x1f, 0x20, 0x37, 0x38, 0x39, 0x3a, 0x3b, 0x3c, 0x40, 0x57, 0x58,
         0x5b, 0x5c, 0x5f, 0x60, 0x78, 0x7f, 0x80, 0x98, 0x9b, 0x9f, 0xa0, 0xb8, 0xbf, 0xc0, 0xd8, 0xdb, 0xdc, 0xdf, 0xe0, 0xf3, 0xf4, 0xf5,
         0xf6, 0xf7, 0xf8, 0xf9, 0xfa, 0xfb, 0xfc, 0xff];
+    if g.thorough() {
+        // exhaustive small domain: every initial byte x every second byte (+ two fixed tails), the first-byte
+        // dispatch of every primitive (one op per decoder, so nothing is masked by an earlier error)
+        let prims = ["datatype", "u8", "u16", "u32", "u64", "i8", "i16", "i32", "i64", "int", "bool", "null", "undefined", "simple",
+            "bytes", "bytes_iter", "str", "str_iter", "array", "map", "tag", "skip"];
+        for b0 in 0..=255u32 {
+            for (k, p) in prims.iter().enumerate() {
+                let mut ops = vec![];
+                for b1 in 0..=255u32 {
+                    if (b1 as usize + k) % 4 != 0 && !(0x38..=0x3b).contains(&b0) { continue; }
+                    ops.push(format!("buf {:02x}{:02x}{}", b0, b1, if b1 % 2 == 0 { "" } else { "0001" }));
+                    ops.push(p.to_string());
+                }
+                g.case(ops);
+            }
+            g.case(vec![format!("buf {:02x}", b0), "datatype".into(), "skip".into()]);
+        }
+    }
     for i in 0..g.cases {
         let mut rng = g.rng.fork();
         let mut buf: Vec<u8> = vec![];
